@@ -9,8 +9,6 @@ import (
 	"go/types"
 	"strings"
 
-	"golang.org/x/tools/go/packages"
-
 	"osmcheck/core"
 )
 
@@ -916,146 +914,5 @@ func (m *c11Model) a5Results(locs *c11Locs) {
 		r.Bad(c, pos, "%s: the updates would not end up on the parent version whose locations produced them", strings.Join(c11Uniq(bad), "; "))
 	default:
 		r.OK(c, pos, "the list accumulated by the window loop (empty when the loop is entered) is appended to results[I] in every group iteration that runs the loop; results = make(…, len(parents)) is what the success path returns: result i belongs to parents[i]")
-	}
-}
-
-// c11A5Group checks the grouping method (the callee that turns the locations of a child into the groups
-// Compute ranges over): every group is a maximal run L[:e] of the remaining list whose elements all have
-// the parent index of L[0]. Decided on the paths of the method: the run length starts at 0, is advanced by
-// one only after deciding e < len(L) && L[e].<parent> == L[0].<parent>, the run loop is left only when
-// that is false, the run L[:e] is appended to the result and cut off the list, until the list is empty.
-func c11A5Group(r *core.R, cpk *packages.Package, fn *types.Func, locs *c11Locs) {
-	c := "group@" + funcName(fn)
-	fi := findFunc(cpk, funcName(fn))
-	if fi == nil || fi.Decl.Body == nil {
-		r.Anchor("declaration of core." + funcName(fn))
-		return
-	}
-	recvO := c11RecvObj(cpk.TypesInfo, fi.Decl)
-	if recvO == nil {
-		r.Unknown(c, fi.Decl.Pos(), "unnamed receiver")
-		return
-	}
-	it := c11NewInterp(cpk)
-	paths := c11AllPaths(it, fi, nil)
-	if notes := c11PathNotes(it, paths); len(notes) > 0 {
-		r.Unknown(c, fi.Decl.Pos(), "%s could not be followed on every path: %s", fi.Name(), strings.Join(notes, "; "))
-		return
-	}
-	c11Dump(r, fi.Name(), paths)
-	const consequence = "cannot show that every group is a maximal run of one parent index (Compute uses group[0] for the whole group)"
-	// the result: a loop symbol of the outer loop
-	var outer, resName string
-	var resObj types.Object
-	var miss []string
-	for _, p := range paths {
-		if p.ctl != c11Return {
-			continue
-		}
-		if len(p.res) != 1 {
-			miss = append(miss, "not a single result")
-			continue
-		}
-		lk, ok := c11IsLoopSym(p.res[0])
-		if !ok {
-			miss = append(miss, "the result "+p.res[0].key()+" is not the list accumulated by a loop")
-			continue
-		}
-		if outer != "" && outer != lk {
-			miss = append(miss, "results of different loops are returned")
-		}
-		outer, resObj, resName = lk, p.res[0].obj, p.res[0].obj.Name()
-	}
-	if outer == "" || len(miss) > 0 {
-		r.Unknown(c, fi.Decl.Pos(), "%s; %s", strings.Join(c11Uniq(append(miss, "no accumulated result")), "; "), consequence)
-		return
-	}
-	L := c11Sym("loop@"+outer+":"+recvO.Name(), recvO)
-	lenL := &c11V{k: "call", name: "len", xs: []*c11V{L}}
-	pf := locs.parentField
-	first := c11Field(&c11V{k: "index", xs: []*c11V{L, c11Int(0)}}, pf)
-	nOuter, nInner := 0, 0
-	var inner string
-	var e *c11V
-	var endObj types.Object
-	for _, p := range paths {
-		st := p.st
-		if p.ctl != c11Back || p.loopKey != outer {
-			continue
-		}
-		nOuter++
-		// entered with an empty result and the receiver itself
-		for _, ev := range st.ev {
-			if ev.kind == "loop" && ev.key == outer {
-				if pre := ev.pre[resObj]; pre == nil || pre.k != "nil" {
-					miss = append(miss, resName+" is not empty before the loop")
-				}
-				if pre := ev.pre[recvO]; pre == nil || pre.key() != c11Param(recvO).key() {
-					miss = append(miss, "the list being cut is not the receiver")
-				}
-			}
-		}
-		if st.truth(c11Bin(token.LSS, c11Int(0), lenL)) != c11T && st.truth(c11Bin(token.NEQ, lenL, c11Int(0))) != c11T {
-			miss = append(miss, "an iteration runs without having decided len("+recvO.Name()+") > 0")
-		}
-		// result = append(result, L[:e]); L = L[e:]
-		rv := st.env[resObj]
-		okApp := false
-		if rv != nil && rv.k == "call" && rv.name == "append" && len(rv.xs) == 2 && rv.xs[0].key() == c11Sym("loop@"+outer+":"+resName, resObj).key() {
-			if sl := rv.xs[1]; sl.k == "slice" && sl.xs[0].key() == L.key() && (sl.xs[1].name == "-" || sl.xs[1].isConstInt(0)) {
-				if lk, ok := c11IsLoopSym(sl.xs[2]); ok {
-					okApp = true
-					inner, e, endObj = lk, sl.xs[2], sl.xs[2].obj
-				}
-			}
-		}
-		if !okApp {
-			miss = append(miss, "an iteration does not end with "+resName+" = append("+resName+", "+recvO.Name()+"[:end]) for the run length end of an inner loop")
-			continue
-		}
-		if lv := st.env[recvO]; lv == nil || lv.k != "slice" || lv.xs[0].key() != L.key() || lv.xs[1].key() != e.key() || lv.xs[2].name != "-" {
-			miss = append(miss, "an iteration does not end with "+recvO.Name()+" = "+recvO.Name()+"[end:]")
-		}
-		for _, ev := range st.ev {
-			if ev.kind == "loop" && ev.key == inner {
-				if pre := ev.pre[endObj]; pre == nil || !pre.isConstInt(0) {
-					miss = append(miss, "the run length does not start at 0")
-				}
-			}
-		}
-		// the run loop was left because the run ended
-		inRange := st.truth(c11Bin(token.LSS, e, lenL))
-		same := st.truth(c11Bin(token.EQL, c11Field(&c11V{k: "index", xs: []*c11V{L, e}}, pf), first))
-		if inRange != c11F && same != c11F {
-			miss = append(miss, "the run loop can be left although the next location has the same parent index (runs would not be maximal)")
-		}
-	}
-	if e != nil {
-		for _, p := range paths {
-			st := p.st
-			if p.ctl != c11Back || p.loopKey != inner {
-				continue
-			}
-			nInner++
-			if st.truth(c11Bin(token.LSS, e, lenL)) != c11T {
-				miss = append(miss, "the run is extended without having decided end < len("+recvO.Name()+")")
-			}
-			if st.truth(c11Bin(token.EQL, c11Field(&c11V{k: "index", xs: []*c11V{L, e}}, pf), first)) != c11T {
-				miss = append(miss, "the run is extended without having decided "+recvO.Name()+"[end]."+pf.Name()+" == "+recvO.Name()+"[0]."+pf.Name())
-			}
-			if v := st.env[endObj]; v == nil || v.key() != c11Bin(token.ADD, e, c11Int(1)).key() {
-				miss = append(miss, "the run length is not advanced by exactly one")
-			}
-		}
-	}
-	switch {
-	case nOuter == 0:
-		r.Unknown(c, fi.Decl.Pos(), "no iteration of the loop accumulating the result completes; %s", consequence)
-	case len(miss) > 0:
-		r.Unknown(c, fi.Decl.Pos(), "%s; %s", strings.Join(c11Uniq(miss), "; "), consequence)
-	case nInner == 0:
-		r.Unknown(c, fi.Decl.Pos(), "the run loop never completes an iteration; %s", consequence)
-	default:
-		r.OK(c, fi.Decl.Pos(), "each group is L[:end] with end started at 0 and advanced by one only after deciding end < len(L) && L[end].%s == L[0].%s; the run loop is left only when that fails; the run is appended and cut off while len(L) > 0: groups are maximal runs of one parent index, in order, covering the list", pf.Name(), pf.Name())
 	}
 }
